@@ -53,6 +53,11 @@ class Sched:
         except BaseException as e:  # noqa  (a bug in the harness must not hang the run)
             self.chooser_error = e
             j = None
+        if j is not None and (not (0 <= j < self.n) or self.done[j]):
+            # (would hang: nobody holds the baton) — e.g. a replayed prefix that no longer fits because the run is not
+            # reproducible
+            self.chooser_error = RuntimeError("scheduler: chooser named worker %r, which has finished" % (j,))
+            j = None
         if j is not None:
             self.choices.append(j)
         return j
